@@ -3,7 +3,7 @@
  "name": "flush2_groups",
  "props": ["C20", "C07"],
  "level": "U",
- "tier": "wip",
+ "tier": "quick",
  "harness": "h_flush2_groups",
  "enforce": ["ext2fs_flush2"],
  "replace": ["ext2fs_super_and_bgd_loc2", "write_backup_super", "write_primary_superblock"],
@@ -11,7 +11,7 @@
  "unwind": 16,
  "unwind_reason": "no loop of the code is unwound (the group loop carries an in-place loop contract); the bound only serves the DFCC library loops, unwinding assertions on",
  "functions": ["lib/ext2fs/closefs.c:ext2fs_flush2"],
- "assumes": ["NEEDS the hook in hooks-pending/b9.diff (loop contract on the group loop of ext2fs_flush2)",
+ "assumes": ["NEEDS the hook in hooks-pending/geo.diff (was b9.diff) (loop contract on the group loop of ext2fs_flush2)",
              "little-endian host; no write_bitmaps callback, no progress callbacks; fs->now set (no time() call)",
              "ext2fs_super_and_bgd_loc2 replaced by a logging contract returning ARBITRARY locations (never both an old-style and a meta_bg one: proved in super_and_bgd_loc2) and recording those reported for the ghost group; the locations themselves are unit super_and_bgd_loc2",
              "write_backup_super replaced by its frame (write_backup_super unit) + a ghost log of (group, block); write_primary_superblock replaced by an arbitrary-result contract; ext2fs_superblock_csum_set, io_channel_write_blk64 and the channel's flush are stubs (write stub classifies each write issued in the ghost group's iteration as old-style / meta_bg / unexpected)",
@@ -22,7 +22,7 @@
 */
 /*
  * Per-group step of ext2fs_flush2, for ONE arbitrary ghost group verif_k (sound for "every group"),
- * by induction over the group loop (in-place loop contract, hooks-pending/b9.diff):
+ * by induction over the group loop (in-place loop contract, hooks-pending/geo.diff (was b9.diff)):
  *   verif_g0  number of write_backup_super calls for group k      verif_g1  block of that call
  *   verif_g2  number of old-style descriptor writes in k's iteration (block == reported old_desc_blk,
  *             count == min(s_first_meta_bg, desc_blocks) resp. desc_blocks, data == fs->group_desc)
